@@ -166,7 +166,24 @@ func (s *cstore) StoreLogs(ls []*raft.Log) error {
 }
 func (s *cstore) StoreLog(l *raft.Log) error { return s.StoreLogs([]*raft.Log{l}) }
 
+// ringLog keeps the last lines a server logged (dumped when an availability check fails)
+type ringLog struct {
+	mu    sync.Mutex
+	lines []string
+}
+
+func (l *ringLog) Write(p []byte) (int, error) {
+	l.mu.Lock()
+	l.lines = append(l.lines, string(p))
+	if len(l.lines) > 400 {
+		l.lines = l.lines[len(l.lines)-300:]
+	}
+	l.mu.Unlock()
+	return len(p), nil
+}
+
 type cnode struct {
+	rlog      *ringLog
 	batching  bool // the FSM is a BatchingFSM + ConfigurationStore in this lifetime
 	slowClock bool // this server's timeouts are 10x longer (a slow clock; C09 assumes nothing about clocks)
 	id        int
@@ -197,6 +214,8 @@ type cluster struct {
 	trailing uint64
 	maxAE    int
 	noPV     map[int]bool // servers running with pre-vote disabled
+	codes    map[int]int  // result code per finished call
+	dbgLines []string
 	pv2      bool         // every server runs protocol version 2
 	track    bool         // commit-tracking log stores with RestoreCommittedLogs
 	slowFSM  bool         // some FSMs take a few virtual ms per Apply
@@ -244,6 +263,11 @@ func (c *cluster) conf(i int, n *cnode) *raft.Config {
 	conf := raft.DefaultConfig()
 	conf.LocalID = sidOf(i)
 	conf.LogOutput = io.Discard
+	if n.rlog == nil {
+		n.rlog = &ringLog{}
+	}
+	conf.LogOutput = n.rlog
+	conf.LogLevel = "DEBUG"
 	if os.Getenv("VERIF_RAFTLOG") != "" {
 		conf.LogOutput = os.Stderr
 	}
@@ -354,11 +378,24 @@ func (c *cluster) forward(from, to int, rpc raft.RPC) {
 		err = c.inj.TimeoutNow(sidOf(to), target.addr, a, out)
 		resp = out
 	}
+	if err != nil && os.Getenv("VERIF_TRACE") != "" && strings.Contains(err.Error(), "failed to connect") {
+		c.dbg("t=%d forward %d->%d: %v (target up=%v life=%d)", c.h.now(), from, to, err, target.up, target.life)
+	}
 	if back {
 		return // response lost
 	}
 	time.Sleep(time.Duration(r4+hold) * time.Millisecond)
 	rpc.Respond(resp, err)
+}
+
+// dbg: diagnostic lines kept per case when VERIF_TRACE is set (written next to a failing availability check)
+func (c *cluster) dbg(f string, a ...interface{}) {
+	c.mu.Lock()
+	c.dbgLines = append(c.dbgLines, fmt.Sprintf(f, a...))
+	if len(c.dbgLines) > 2000 {
+		c.dbgLines = c.dbgLines[len(c.dbgLines)-1500:]
+	}
+	c.mu.Unlock()
 }
 
 func (c *cluster) noteSender(from int, term uint64) {
@@ -383,6 +420,21 @@ func (c *cluster) startNode(n *cnode) {
 	go func(ch chan bool, id, life int) {
 		for v := range ch {
 			c.h.rec("N %d %d %d %d", id, life, b2i(v), c.h.now())
+			if v {
+				// was the server a voter of the configuration it was elected under?
+				go func() {
+					r := n.r
+					if r == nil || n.life != life {
+						return
+					}
+					f := r.GetConfiguration()
+					if f.Error() != nil {
+						return
+					}
+					start, ok := r.VerifLeaderStartIndex()
+					c.h.rec("LV %d %d %d %d %d %d", id, life, b2i(raft.VerifHasVote(f.Configuration(), sidOf(id))), f.Index(), start, b2i(ok))
+				}()
+			}
 		}
 	}(n.notify, n.id, n.life)
 	tmo := 80 * time.Millisecond
@@ -399,6 +451,9 @@ func (c *cluster) startNode(n *cnode) {
 		go c.proxyLoop(n.id, o.id, px)
 	}
 	c.inj.Connect(n.addr, n.trans)
+	if os.Getenv("VERIF_TRACE") != "" {
+		c.dbg("t=%d connect %d life=%d", c.h.now(), n.id, n.life)
+	}
 	var theFSM raft.FSM = n.fsm
 	if n.batching {
 		theFSM = &cbfsm{n.fsm}
@@ -441,6 +496,9 @@ func (c *cluster) crash(n *cnode) {
 		}
 	}
 	c.inj.Disconnect(n.addr)
+	if os.Getenv("VERIF_TRACE") != "" {
+		c.dbg("t=%d disconnect %d life=%d", c.h.now(), n.id, n.life)
+	}
 	c.h.rec("Z %d %d %d", n.id, n.life, c.h.now())
 }
 
@@ -455,9 +513,9 @@ func (c *cluster) leader() *cnode {
 
 // client call: runs in its own goroutine, records invoke/return in virtual ms; a call that has not
 // resolved after 20 virtual seconds is recorded as stranded (code 10) and abandoned
-func (c *cluster) apply(n *cnode, kind string) { c.callWith(n, kind, nil) }
+func (c *cluster) apply(n *cnode, kind string) int { return c.callWith(n, kind, nil) }
 
-func (c *cluster) callWith(n *cnode, kind string, fn func(r *raft.Raft) error) {
+func (c *cluster) callWith(n *cnode, kind string, fn func(r *raft.Raft) error) int {
 	c.mu.Lock()
 	c.pay++
 	p := c.pay
@@ -521,7 +579,24 @@ func (c *cluster) callWith(n *cnode, kind string, fn func(r *raft.Raft) error) {
 			}
 		}
 		c.h.rec("K %d %d %d %s %d %d %d %d %d %d", cid, n.id, life, kind, p, t0, c.h.now(), o.code, o.idx, o.resp)
+		c.mu.Lock()
+		if c.codes == nil {
+			c.codes = map[int]int{}
+		}
+		c.codes[cid] = o.code
+		c.mu.Unlock()
 	}()
+	return cid
+}
+
+// codeOf: the result code of a finished call (-1 while it is outstanding)
+func (c *cluster) codeOf(cid int) int {
+	c.mu.Lock()
+	defer c.mu.Unlock()
+	if v, ok := c.codes[cid]; ok {
+		return v
+	}
+	return -1
 }
 
 // sample: one light record per running server (term, role, commit, last index, first index of its
@@ -580,6 +655,31 @@ func (c *cluster) isolate(id int, on bool) {
 	} else {
 		c.h.rec("UNISOL %d %d", id, c.h.now())
 	}
+}
+
+// nonVoters: the servers n's own latest configuration lists as non-voters, and whether every server
+// is a voter in it; ok=false if the configuration cannot be read
+func (c *cluster) nonVoters(n *cnode) (nv []int, ok bool) {
+	f := n.r.GetConfiguration()
+	if f.Error() != nil {
+		return nil, false
+	}
+	for _, sv := range f.Configuration().Servers {
+		if sv.Suffrage != raft.Voter {
+			for i := 1; i < len(c.nodes); i++ {
+				if sidOf(i) == sv.ID {
+					nv = append(nv, i)
+				}
+			}
+		}
+	}
+	return nv, true
+}
+
+func (c *cluster) calm() bool {
+	c.mu.Lock()
+	defer c.mu.Unlock()
+	return len(c.blocked) == 0 && c.dropPct == 0 && len(c.holdMs) == 0
 }
 
 func (c *cluster) dump(phase string) {
@@ -909,16 +1009,152 @@ func runClusterCase(rng *rand.Rand, thorough bool, out *bufio.Writer, st *stats,
 					st.Hist["transfer-target-isolated"]++
 				}
 			}
-		default: // a plain isolation of one server for a while (C14: its term must not move)
-			if len(ups) > 0 {
-				n := ups[rng.Intn(len(ups))]
-				c.isolate(n.id, true)
-				for k, m := 0, 2+rng.Intn(6); k < m; k++ {
-					time.Sleep(100 * time.Millisecond)
-					c.sample()
+		default:
+			switch rng.Intn(4) {
+			case 0: // a voter cut off from every other voter, but still connected to the non-voters (C14)
+				if l := c.leader(); l != nil && len(ups) == nsrv {
+					nv, ok := c.nonVoters(l)
+					var x *cnode
+					for _, cand := range ups {
+						isNV := false
+						for _, d := range nv {
+							isNV = isNV || d == cand.id
+						}
+						if !isNV && (x == nil || rng.Intn(2) == 0) {
+							x = cand
+						}
+					}
+					if ok && len(nv) > 0 && x != nil {
+						// x itself must know that they are non-voters
+						nvx, okx := c.nonVoters(x)
+						if okx && len(nvx) == len(nv) {
+							c.mu.Lock()
+							for o := 1; o < len(c.nodes); o++ {
+								isNV := false
+								for _, d := range nv {
+									isNV = isNV || d == o
+								}
+								if o != x.id && !isNV {
+									c.blocked[[2]int{x.id, o}] = true
+									c.blocked[[2]int{o, x.id}] = true
+								}
+							}
+							c.mu.Unlock()
+							c.h.rec("ISOL %d %d", x.id, c.h.now())
+							for k, m := 0, 3+rng.Intn(6); k < m; k++ {
+								time.Sleep(100 * time.Millisecond)
+								c.sample()
+							}
+							c.isolate(x.id, false)
+							st.Hist["isolation-with-non-voters"]++
+						}
+					}
 				}
-				c.isolate(n.id, false)
-				st.Hist["isolation"]++
+			case 1: // C12: with one server (two of five) stopped and the network calm, the rest elects and accepts writes
+				if l := c.leader(); l != nil && len(ups) == nsrv {
+					nv, ok := c.nonVoters(l)
+					if ok && len(nv) == 0 {
+						c.mu.Lock()
+						c.blocked = map[[2]int]bool{}
+						c.delayMs, c.dropPct, c.dupPct = 2, 0, 0
+						c.mu.Unlock()
+						c.h.rec("HEALALL %d", c.h.now())
+						for _, x := range c.nodes[1:] { // faults have stopped: no armed disk fault either
+							x.st.mu.Lock()
+							x.st.failNext = 0
+							x.st.mu.Unlock()
+							x.snaps.mu.Lock()
+							x.snaps.failClose = 0
+							x.snaps.mu.Unlock()
+						}
+						time.Sleep(300 * time.Millisecond) // everybody learns the configuration ...
+						allKnow := true
+						for _, x := range c.nodes[1:] { // ... and the check is made only if everybody has: all voters, everywhere
+							nvx, okx := c.nonVoters(x)
+							if !x.up || !okx || len(nvx) > 0 {
+								allKnow = false
+							}
+						}
+						if lnow := c.leader(); lnow == nil {
+							allKnow = false
+						} else {
+							sts := lnow.r.Stats()
+							ci, _ := strconv.Atoi(sts["commit_index"])
+							li, _ := strconv.Atoi(sts["latest_configuration_index"])
+							if li > ci { // the configuration in force is not committed yet
+								allKnow = false
+							}
+						}
+						if !allKnow {
+							st.Hist["majority-availability-check-skipped"]++
+							break
+						}
+						var stopped []*cnode
+						for k := 0; k < (nsrv-1)/2 && (k == 0 || rng.Intn(2) == 0); k++ {
+							v := c.nodes[1+rng.Intn(nsrv)]
+							if v.up {
+								c.crash(v)
+								stopped = append(stopped, v)
+							}
+						}
+						time.Sleep(3 * time.Second)
+						okW := 0
+						if l2 := c.leader(); l2 != nil {
+							cid := c.apply(l2, "a")
+							time.Sleep(500 * time.Millisecond)
+							if c.codeOf(cid) == 0 {
+								okW = 1
+							}
+						}
+						c.h.rec("MAJ %d %d %d", c.h.now(), len(stopped), okW)
+						if okW == 0 {
+							var b strings.Builder
+							c.mu.Lock()
+							for _, ln := range c.dbgLines {
+								b.WriteString(ln + "\n")
+							}
+							c.mu.Unlock()
+							for _, x := range c.nodes[1:] {
+								fmt.Fprintf(&b, "==== server %d up=%v\n", x.id, x.up)
+								x.rlog.mu.Lock()
+								for _, ln := range x.rlog.lines {
+									b.WriteString(ln)
+								}
+								x.rlog.mu.Unlock()
+							}
+							_ = os.WriteFile(fmt.Sprintf("%s.majfail.%d.log", *flagOut, caseNo), []byte(b.String()), 0o644)
+						}
+						for _, v := range stopped {
+							c.startNodeP(v)
+						}
+						st.Hist["majority-availability-check"]++
+					}
+				}
+			default: // a plain isolation of one server for a while (C14: its term must not move)
+				if len(ups) > 0 {
+					n := ups[rng.Intn(len(ups))]
+					c.isolate(n.id, true)
+					for k, m := 0, 2+rng.Intn(6); k < m; k++ {
+						time.Sleep(100 * time.Millisecond)
+						c.sample()
+					}
+					c.isolate(n.id, false)
+					st.Hist["isolation"]++
+					// C14: reconnecting does not disturb a healthy leader (calm network only)
+					if l := c.leader(); l != nil && l.id != n.id && l.id != nsrv && c.calm() && len(ups) == nsrv {
+						t0, term0 := c.h.now(), l.r.CurrentTerm()
+						time.Sleep(400 * time.Millisecond)
+						l2 := c.leader()
+						lid, term1 := 0, uint64(0)
+						if l2 != nil {
+							lid, term1 = l2.id, l2.r.CurrentTerm()
+						}
+						if c.calm() {
+							c.h.rec("REJOIN %d %d %d %d %d %d %d", n.id, t0, l.id, term0, c.h.now(), lid, term1)
+							st.Hist["rejoin-check"]++
+						}
+					}
+				}
 			}
 		}
 		c.sample()
